@@ -50,7 +50,7 @@ def reset_client(r, name=None):
 def gen_client(r, run):
     m = r.random()
     if m < 0.45:
-        return {'kind': 'yaml', 'yaml': r.choice(YAMLS), 'env_seed': r.randrange(2**31)}
+        return {'kind': 'yaml', 'yaml': r.choice(YAMLS), 'env_seed': W.gen_seed(r)}
     if m < 0.75:
         return reset_client(r)
     spec = W.gen_hand_client(r, hmax=6, wmax=6, n_pool=0, valid_start=True)
@@ -63,7 +63,7 @@ def gen_client(r, run):
 
 
 def client_ops(r, n):
-    ops = [['set_seed', r.randrange(2**31)], ['reset']]
+    ops = [['set_seed', W.gen_seed(r)], ['reset']]
     while len(ops) < n:
         m = r.random()
         if m < 0.6:
@@ -73,7 +73,7 @@ def client_ops(r, n):
         elif m < 0.93:
             ops.append(['reset'])
         else:
-            ops.append(['set_seed', r.randrange(2**31)])
+            ops.append(['set_seed', W.gen_seed(r)])
             if r.random() < 0.6:
                 ops.append(['reset'])  # a used environment, given a seed again and reset (compared with a fresh one)
     return ops
@@ -103,7 +103,7 @@ def generate(seed, run, tier):
         clients = []
         # walk through all shipped configurations systematically, plus random-reset compositions
         for j in range(4):
-            clients.append({'kind': 'yaml', 'yaml': YAMLS[(k * 4 + j) % len(YAMLS)], 'env_seed': r.randrange(2**31)})
+            clients.append({'kind': 'yaml', 'yaml': YAMLS[(k * 4 + j) % len(YAMLS)], 'env_seed': W.gen_seed(r)})
         names = ['memory', 'memory_rooms', 'rooms', 'keydoor', 'crossing', 'teleport', 'dynamic_obstacles', 'empty']
         for j in range(3):
             clients.append(reset_client(r, names[(k * 3 + j) % len(names)]))
@@ -331,7 +331,7 @@ def histories_for_child(record):
     out = []
     for c in range(len(record['clients'])):
         h = solo_history(record, c, False, ctx)
-        out.append([sha(list(map(list, h))), [sha(list(x)) for x in h]])
+        out.append([sha(list(map(list, h))), [sha(list(x)) for x in h], [x[0] for x in h]])
     return out
 
 
@@ -357,7 +357,7 @@ def execute(record, ctx):
                     i = next((j for j, (x, y) in enumerate(zip(mine[c][1], theirs[c][1])) if x != y), -1)
                     spec = record['clients'][c]
                     what = _what(spec)
-                    opn = [o for o in record['ops'] if o[0] == c][i][1] if i >= 0 else '-'
+                    opn = mine[c][2][i] if 0 <= i < len(mine[c][2]) else 'length'
                     ctx.violate('isolation', 'differs_across_interpreters', what, f'first_difference_at_{opn}', -1,
                                 f'client {c} ({what}) has a different history under PYTHONHASHSEED={hs} (first differing op #{i}: {opn})')
                     break
